@@ -153,8 +153,8 @@ pub fn c16() -> PropDef {
             c.terms = vec![TermClass::Collect, TermClass::Count, TermClass::ReduceFamily, TermClass::ShortCircuit];
         }),
         sched: None,
-        quick: (1500, 0),
-        thorough: (20000, 0),
+        quick: (5000, 0),
+        thorough: (30000, 0),
         dense: dense_c16,
         check: check_c16,
         adjust: no_adjust,
